@@ -257,6 +257,9 @@ func ReadWALValid(b []byte) (frames []WALFrame, pageSize int, ok bool) {
 		if binary.BigEndian.Uint32(h[8:]) != salt1 || binary.BigEndian.Uint32(h[12:]) != salt2 {
 			break
 		}
+		if binary.BigEndian.Uint32(h[0:]) == 0 { // page numbers start at 1 (walDecodeFrame)
+			break
+		}
 		s0, s1 = walChecksum(bo, s0, s1, h[:8])
 		s0, s1 = walChecksum(bo, s0, s1, data)
 		if s0 != binary.BigEndian.Uint32(h[16:]) || s1 != binary.BigEndian.Uint32(h[20:]) {
